@@ -179,6 +179,59 @@ def steps_of(fn, limit):
     return n[0], out
 
 
+def peak_memory_of(fn):
+    """peak of Python-level allocations (tracemalloc) while fn runs, and how it ended"""
+    import tracemalloc
+    tracemalloc.start()
+    try:
+        tracemalloc.reset_peak()
+        base = tracemalloc.get_traced_memory()[0]
+        try:
+            fn()
+            out = 'returned'
+        except RecursionError:
+            out = 'RecursionError'
+        except Exception as e:
+            out = type(e).__name__
+        peak = tracemalloc.get_traced_memory()[1] - base
+    finally:
+        tracemalloc.stop()
+    return peak, out
+
+
+class address_space_cap:
+    """while the hostile inputs run, the process may grow by at most `extra` bytes of address space: a decoder that sizes a
+    buffer by a length word of the input then ends in MemoryError (reported as a failure) instead of taking the machine down"""
+    def __init__(self, extra=2 << 30):
+        self.extra = extra
+
+    def __enter__(self):
+        import resource
+        self.old = resource.getrlimit(resource.RLIMIT_AS)
+        try:
+            cur = int(open('/proc/self/statm').read().split()[0]) * resource.getpagesize()
+            hard = self.old[1]
+            want = cur + self.extra
+            if hard != resource.RLIM_INFINITY:
+                want = min(want, hard)
+            resource.setrlimit(resource.RLIMIT_AS, (want, hard))
+        except (OSError, ValueError):
+            self.old = None
+        return self
+
+    def __exit__(self, *a):
+        import resource
+        if self.old is not None:
+            resource.setrlimit(resource.RLIMIT_AS, self.old)
+        return False
+
+
+def memory_budget_for(nbytes, nsig):
+    # decoded data is at most a few Python objects per input byte; the constant part covers frames, the exception and its
+    # traceback and the pieces of a signature of length nsig (measured on the unchanged tree with a margin of > 4x)
+    return 150000 + 2000 * nsig + 600 * nbytes
+
+
 def budget_for(nbytes, nsig):
     # linear in the data for a given signature: splitting a signature of length n <= 255 costs up to ~n^2 interpreted lines
     # (bracket matching per nesting level) and is repeated per decoded element, so the constant is quadratic in n
@@ -205,6 +258,11 @@ HOSTILE_SIGS = ['ai' * 16, 'ai' * 30, '(' + 'ay' * 40 + ')', 'a(' + 'ai' * 20 + 
 
 
 def bounded(tier, seed):
+    with address_space_cap():
+        return bounded_(tier, seed)
+
+
+def bounded_(tier, seed):
     from txdbus import marshal, message
     rnd = random.Random(seed * 31 + 5)
     n = 0
@@ -223,8 +281,21 @@ def bounded(tier, seed):
                 n += 1
                 limit = budget_for(len(d), len(sg))
                 st, out = steps_of(lambda: marshal.unmarshal(sg, d, 0, le), limit)
-                if out == 'BUDGET':
+                if out in ('BUDGET', 'MemoryError'):
                     return fail('unmarshal(%r, %d bytes)' % (sg, len(d)), {'signature': sg, 'data': d.hex(), 'little_endian': le}, st, out, limit)
+    # 1b. the same inputs, and array length words that claim up to 64 MiB in front of a few bytes: the data built while
+    # decoding stays proportional to the input (peak of Python-level allocations)
+    liars = [struct.pack(e + 'I', claim) + body for claim in (1 << 16, 1 << 22, (1 << 26) - 8, 1 << 26) for e in '<>'
+             for body in (b'', b'\0' * 4, b'\0' * 12 + b'\1\2\3\4' * 5)]
+    for sg in HOSTILE_SIGS + ['(ay)', 'v', 'a(ay)', '(iay)', 'aay', 'aai', 'a{say}']:
+        for d in datas + liars:
+            for le in (True, False):
+                n += 1
+                mlimit = memory_budget_for(len(d), len(sg))
+                peak, out = peak_memory_of(lambda: marshal.unmarshal(sg, d, 0, le))
+                if peak > mlimit or out == 'MemoryError':
+                    return n, 'unmarshal(%r, %d bytes): %s with a peak of %d bytes allocated (budget %d): data unrelated in size to the input' % (
+                        sg, len(d), out, peak, mlimit), {'signature': sg, 'data': d.hex(), 'little_endian': le}
     # 2. signature splitter alone, every string over a hostile alphabet up to a length
     import itertools
     L = 7 if tier == 'thorough' else 6
@@ -251,7 +322,7 @@ def bounded(tier, seed):
             n += 1
             limit = budget_for(len(data), 255)
             st, out = steps_of(lambda: message.parseMessage(data, []), limit)
-            if out == 'BUDGET':
+            if out in ('BUDGET', 'MemoryError'):
                 return fail('parseMessage(%d bytes)' % len(data), {'raw': data.hex()}, st, out, limit)
     return n, None, None
 
